@@ -56,7 +56,7 @@ def run(rep):
                 "equal including the reported error position. Non-trivial: accepted inputs.")
     rep.assumptions = ["Peg!WellFormed fragment"]
     for fam, depth in ([("mods", 1)] if quick else [("mods", 2), ("ops", 2)]):
-        P.judge_universe_memo(rep, PID, fam, depth)
+        P.judge_universe_memo(rep, PID, fam, depth, maxlen=4 if quick else "")
     rep.exhaustive = True
     n, per = (100, 8) if quick else (1200, 10)
     base = c01.random_cases(rng, n, per, OPTS)
